@@ -5,6 +5,7 @@ from typing import Any, Dict, Mapping, Optional, Union
 
 from ..exc import InvalidValue, UnknownVariable
 from ..lang import ast as _ast
+from ..schema.scalars import SPECIFIED_SCALAR_TYPES
 from ..schema.types import (
     EnumType,
     GraphQLType,
@@ -74,6 +75,9 @@ def value_from_ast(
         return type_.get_value(node.value)
 
     if isinstance(type_, ScalarType):
+        # Custom scalars providing their own ``parse_literal`` accept every kind
+        # of literal (JSON like scalars); the specified scalars and scalars
+        # relying on ``parse`` only accept scalar literals.
         if not isinstance(
             node,
             (
@@ -82,6 +86,8 @@ def value_from_ast(
                 _ast.StringValue,
                 _ast.BooleanValue,
             ),
+        ) and (
+            type_ in SPECIFIED_SCALAR_TYPES or type_._parse_literal is None
         ):
             raise InvalidValue(
                 "Invalid literal %s for scalar type %s"
